@@ -2111,7 +2111,7 @@ class C11(Prop):
                 # are running for; then the same texts again (a repeat after overlapping calls)
                 L = [f"schema {spec}", f"newh none {co} {mf}"]
                 for raw in hraws + hraws[:2]:
-                    L += [f"fold {hexs(raw)} {st}", f"foldx {hexs(raw)} {st}"]
+                    L += [f"fold {hexs(raw)} {st}", f"foldx {hexs(raw)} {st}", "map id"]
                 L += ["stats", "cochap del", "misfold -", f"foldx {hexs(hraws[0])} {st}", f"fold {hexs(hraws[3])} {st}", "stats"]
                 hook_cases.append({"lines": L, "note": "re-entrant user callbacks: a fold inside a fold on one instance, then repeats"})
         for co in ["-", "brace", "redact", "rs", "rv", "quotes"]:
